@@ -627,6 +627,153 @@ def quantile_oracle(v, n, seed):
     return None
 
 
+def vine_sum_oracle(vine, u):
+    """wrap Tree.get_likelihood (this process): VineCopula.get_likelihood must call every tree exactly once, in
+    order, and return the sum of their values.  -> problem (dict) or None"""
+    from copulas.multivariate import tree as T
+    orig = T.Tree.get_likelihood
+    calls = []
+
+    def rec(self, uni_matrix):
+        out = orig(self, uni_matrix)
+        calls.append((self, float(out[0])))
+        return out
+    T.Tree.get_likelihood = rec
+    try:
+        r = real_lik(vine, u, SENTINELS[0], SENTINELS[1])
+    finally:
+        T.Tree.get_likelihood = orig
+    if isinstance(r, str):
+        return None
+    order = [_idx(vine.trees, c[0]) for c in calls]
+    if order != list(range(len(vine.trees))):
+        return {'trees': len(vine.trees), 'trees evaluated (positions)': order, 'get_likelihood': r}
+    total = float(np.sum(np.array([[c[1] for c in calls]])))
+    if not same_num(r, total, 1e-12):
+        return {'trees': len(vine.trees), 'get_likelihood': r, 'sum of the tree values': total}
+    return None
+
+
+INV_TOL = {'Clayton': 1e-6}      # closed form; Frank / Gumbel go through Brent on a noisy h for large theta: 2e-2
+
+
+def inversion_oracle(v, n, seed):
+    """every pair-copula inversion `x = copula.percent_point(y, v)` made while sampling must satisfy
+    h(x | v) = y (Clayton, closed form: 1e-6; Frank / Gumbel via Brent: 2e-2).  -> (problem or None, #checked, families)"""
+    from copulas.bivariate.base import Bivariate
+    from copulas.bivariate.clayton import Clayton
+    rec = []
+    saved = []
+
+    def wrap(cls):
+        orig = cls.__dict__['percent_point']
+        saved.append((cls, orig))
+
+        def pp(self, y, V):
+            x = orig(self, y, V)
+            with np.errstate(all='ignore'):
+                back = np.ravel(self.partial_derivative_scalar(np.asarray(x, dtype=float), np.asarray(V, dtype=float)))
+            for a, b, c, d_ in zip(np.ravel(y), np.ravel(V), np.ravel(x), back):
+                rec.append((type(self).__name__, float(np.ravel(self.theta)[0]), float(a), float(b), float(c), float(d_)))
+            return x
+        cls.percent_point = pp
+    try:
+        wrap(Clayton)
+        wrap(Bivariate)
+        v.set_random_state(seed)
+        with np.errstate(all='ignore'):
+            v.sample(n)
+    except ValueError as ex:
+        if 'different signs' not in str(ex):
+            return {'sample raised': f'{type(ex).__name__}: {str(ex)[:80]}'}, len(rec), set()
+    finally:
+        for cls, orig in saved:
+            cls.percent_point = orig
+        v.random_state = None
+    worst = None
+    for fam, th, y, vv, x, back in rec:
+        err = abs(back - y)
+        tol = INV_TOL.get(fam, 2e-2)
+        if not err <= tol and (worst is None or not err <= worst['|h(x|v) - y|']):
+            worst = {'family': fam, 'theta': th, 'y': y, 'v': vv, 'x = percent_point(y, v)': x, 'h(x|v)': back,
+                     '|h(x|v) - y|': err, 'tolerance': tol, 'inversions checked': len(rec)}
+    return worst, len(rec), {r_[0] for r_ in rec}
+
+
+def gen_clayton_table(rng, d, tries=10):
+    """Clayton-generated chain, tau 0.75-0.9, kept when the center fit selects a Clayton first-tree edge with
+    theta >= 6 (select_copula often prefers Frank); falls back to the last table tried."""
+    from scipy.stats import norm
+    from copulas.multivariate.vine import VineCopula
+    X = None
+    for _ in range(tries):
+        rs = np.random.RandomState(rng.getrandbits(32))
+        n = rng.randint(80, 150)
+        tau = rng.uniform(0.75, 0.9)
+        t = 2 * tau / (1 - tau)
+        U = np.empty((n, d))
+        U[:, 0] = rs.uniform(0.001, 0.999, n)
+        for j in range(1, d):
+            w = rs.uniform(0.001, 0.999, n)
+            U[:, j] = ((w ** (-t / (1 + t)) - 1) * U[:, j - 1] ** (-t) + 1) ** (-1 / t)
+        X = pd.DataFrame(norm.ppf(np.clip(U, 1e-6, 1 - 1e-6)), columns=[f'c{i}' for i in range(d)])
+        try:
+            v = VineCopula('center')
+            v.fit(X, truncated=1)
+            e = v.trees[0].edges[0]
+            if fam_of(e) == 0 and float(np.ravel(e.theta)[0]) >= 6:
+                return X, True
+        except Exception:  # noqa
+            pass
+    return X, False
+
+
+def sampling_coherence(ctx, counts, rng, deep):
+    """strongly lower-tail-dependent pairs (Clayton edge, theta >= 6): every inversion made by the sampler is exact
+    (h(x|v) = y), and the two-column sample has the Kendall tau of the fitted pair copula (calibrated on the clean
+    tree: |diff| <= 0.013 at n = 400 over 12 seeds; band 0.12)."""
+    from scipy.stats import kendalltau
+    from copulas.multivariate.vine import VineCopula
+    for d in (2, 3):
+        X, is_clayton = gen_clayton_table(rng, d)
+        counts['clayton tables' if is_clayton else 'clayton-generated tables with another family'] += 1
+        for vt in TYPES:
+            try:
+                with time_limit(FIT_TIMEOUT_S):
+                    v = VineCopula(vt)
+                    v.fit(X, truncated=d)
+            except Exception:  # noqa
+                counts['refused'] += 1
+                continue
+            prob, nchk, fams = inversion_oracle(v, 40 if not deep else 100, rng.getrandbits(31))
+            counts['inversions checked'] += nchk
+            if prob:
+                counts['failures'] += 1
+                ctx.fail_input('VineCopula.sample', table_input(X, vt, d), prob,
+                               'every pair-copula inversion of the sampler satisfies h(x | v) = y',
+                               'VineCopula.sample:pair-copula-inversion-inaccurate')
+            if d == 2 and vt == 'center':
+                n = 400
+                try:
+                    v.set_random_state(rng.getrandbits(31))
+                    with np.errstate(all='ignore'):
+                        S = v.sample(n).to_numpy()
+                except Exception:  # noqa
+                    continue
+                finally:
+                    v.random_state = None
+                counts['two-column tau checks'] += 1
+                tau_s = float(kendalltau(S[:, 0], S[:, 1])[0])
+                tau_e = float(kendalltau(X.iloc[:, 0], X.iloc[:, 1])[0])
+                if not abs(tau_s - tau_e) <= 0.12:
+                    counts['failures'] += 1
+                    ctx.fail_input('VineCopula.sample', table_input(X, vt, d),
+                                   {'tau(sample, n=400)': tau_s, 'tau(fitted pair copula)': tau_e, 'band': 0.12,
+                                    'family': str(v.trees[0].edges[0].name), 'theta': float(np.ravel(v.trees[0].edges[0].theta)[0])},
+                                   'two-column samples reproduce the Kendall tau of the selected pair copula',
+                                   'VineCopula.sample:two-column-tau')
+
+
 def oracle_lik(vine, u):
     """Σ log pdf with the arguments chosen BY VARIABLE (what the vine factorisation needs)."""
     slots = None
@@ -1261,7 +1408,9 @@ def states_oracle(ctx, X, kind, counts, rng):
 def new_counts():
     return {'fits': 0, 'checked': 0, 'refused': 0, 'failures': 0, 'wrong-parent-U': 0, 'lik-nondeterministic': 0,
             'lik-wrong-value': 0, 'lik-nan-agrees': 0, 'two-column stats': 0, 'refit histories': 0,
-            'edges U-checked': 0, 'quantile checks': 0, 'object states': 0}
+            'edges U-checked': 0, 'quantile checks': 0, 'object states': 0, 'vine-sum checks': 0,
+            'clayton tables': 0, 'clayton-generated tables with another family': 0, 'inversions checked': 0,
+            'two-column tau checks': 0}
 
 
 def search(ctx, deep):
@@ -1277,9 +1426,13 @@ def search(ctx, deep):
             d, mode = 2, 'offset'
         elif it == 3:
             d = 2
+        elif it == 4:
+            d = rng.choice([5, 6])       # deep vines: truncation 4 and 5 for every vine type (below)
         X = gen_table(rng, d, mode)
         for vt in TYPES:
             ts = sorted({1, d - 1 if d > 2 else 1, d, rng.randint(1, d)}) if deep else [rng.choice([1, d - 1, d])]
+            if it == 4:
+                ts = [4, 5]
             if deep and d == 2:
                 ts = [rng.choice([1, 2])]
             for t in ts:
@@ -1293,6 +1446,7 @@ def search(ctx, deep):
             refit_oracle(ctx, A, rng.randint(1, dA), B, rng.randint(1, dB), vt, counts, rng)
             tB = rng.randint(1, dB)
             refit_oracle(ctx, B, tB, B, tB, vt, counts, rng)
+    sampling_coherence(ctx, counts, rng, deep)
     # object states: restored via from_dict / Multivariate.from_dict / save+load / deepcopy, four label kinds
     for it in range(2 if deep else 1):
         for kind in LABEL_KINDS:
@@ -1317,6 +1471,9 @@ def replay(ctx, payload):
         refit_oracle(ctx, A, inp['truncated_A'], B, inp['truncated'], inp['vine_type'], counts, rng)
         return any(f['class'] == payload.get('class') for f in ctx.failing[before:])
     X = pd.DataFrame(np.array(inp['rows'], dtype=float), columns=inp['columns'])
+    if payload.get('class') == 'VineCopula.sample:pair-copula-inversion-inaccurate':
+        st, v, _ = real_fit(X, inp['vine_type'], inp['truncated'])
+        return st == 'ok' and any(inversion_oracle(v, 40, sd)[0] for sd in (1, 2, 3))
     for _ in range(3):     # the likelihood clauses draw u: a few draws
         check_real(ctx, X, inp['vine_type'], inp['truncated'], counts, rng, False)
         if any(f['class'] == payload.get('class') for f in ctx.failing[before:]):
